@@ -132,6 +132,7 @@ func TestVerifC01_direct(t *testing.T) {
 	defer r.Finish()
 	r.Rule("package-level entry points of the 8 packages that have them x key seed x encapsulation seed; every key object obtained three ways " +
 		"(scheme, package constructor, Unpack) x {EncapsulateTo, DecapsulateTo} with two different pre-fills of the output buffers; " +
+		"every overlapping placement of an output buffer over an input buffer (ss over ct, ct over seed, ss over seed, Pack over the Unpack source, pke EncryptTo/DecryptTo), " +
 		"every single-bit flip of the ciphertext through DecapsulateTo (FrodoKEM: bit 0 of every 64th byte) and xwing.Decapsulate; " +
 		"non-trivial = distinct (package, key seed, enc seed, object origin) and distinct (package, key seed, flip)")
 	ds := c01Directs()
@@ -223,6 +224,7 @@ func TestVerifC01_direct(t *testing.T) {
 				}
 			}
 		}
+		c01AliasPack(c01AliasCtx{r, rep, kcase}, d, k.pkb, k.skb)
 		eseeds := c01Take(verifmc.Seeds(sch.EncapsulationSeedSize(), r.Seed()), ne)
 		var ct0, ss0 []byte
 		for ei, eseed := range eseeds {
@@ -255,6 +257,7 @@ func TestVerifC01_direct(t *testing.T) {
 					}
 				}
 				r.Distinct(d.name, ki, ei, o.origin)
+				c01AliasKEM(c01AliasCtx{r, rep, kcase}, o.origin, o.p, o.s, eseed, want.ct, want.ss)
 			}
 			if d.name == "X-Wing" {
 				var ss, ct []byte
@@ -328,5 +331,7 @@ func TestVerifC01_direct(t *testing.T) {
 			r.Sample(map[string]interface{}{"package": d.name, "key_seed": verifmc.Hex(kseed), "objects": len(objs), "bit_flips": len(bits)})
 		}
 	})
+	c01AliasPKE(r, nk)
+	r.RequireCounter("overlap_patterns_run", 500)
 	r.RequireCounter("implicit_rejection_value_confirmed", 10000)
 }
